@@ -836,6 +836,7 @@ def rules(repo: Repo, tier: str) -> List[RuleResult]:
         c12.rule_tables(repo, "C01.tables"),
         rule_dupkeys(repo, "C01.dupkeys", ["lisp_parsers.parsing_utils::parse_untyped_predicate", "models.numerical_expression::construct_expression_tree"]),
         rule_order(repo),
+        c12.rule_order(repo, "C01.operands"),
         rule_leftover(repo, "C01.leftover", ["DomainParser.parse_types", "DomainParser.parse_constants", "lisp_parsers.parsing_utils::parse_signature"]),
     ] + _type_rules(repo)
 
